@@ -157,14 +157,18 @@ def lon_range_table(ctx, crate):
 
 
 def coo3d_invariant(ctx, crate):
-    """N: the longitude kept in a `Coo3D` lies in [0, 2pi] (and the latitude in [-pi/2, pi/2]) at
-    every construction site — the fields are private, so the sites of the module are all of them.
-    The crossing-parity test (`is_in_lon_range`, read above on longitudes of [0, 2pi)) and the
-    south-pole heuristic compare these longitudes as numbers: a vertex or a point kept with a
-    negative longitude is on the wrong side of every edge it is compared with.  Ranges are those of
-    the stored term under the comparisons that guard the site (E8, gated merges followed)."""
+    """N: the longitude kept in a `Coo3D` lies in [0, 2pi] (and the latitude in [-pi/2, pi/2]) whatever
+    way is taken through its constructors — the fields are private, so the functions of the module
+    that build one are all there is.  The crossing-parity test (`is_in_lon_range`, read above on
+    longitudes of [0, 2pi)) and the south-pole heuristic compare these longitudes as numbers: a
+    vertex or a point kept with a negative longitude is on the wrong side of every edge it is
+    compared with.  Each constructor is specialised on the outcomes of its two-way tests (one leaf per
+    way through them, so a guard written as one `||` chain, as nested ifs or through a boolean local
+    reads the same); on each leaf the range of the stored term under the outcomes of that leaf (E8,
+    gated merges of inlined helpers followed) must lie in the interval."""
     import math
-    from rules.common import frange_facts, param
+    from rules.common import frange_facts, param, explore_leaves
+    from sym import CMP
     clause = "coo3d-range"
     ADT = "sph_geom::coo3d::Coo3D"
     if ADT not in crate.adts:
@@ -174,30 +178,42 @@ def coo3d_invariant(ctx, crate):
         ctx.undecided(clause, ADT, "fields %s" % fields); return
     il, ib = fields.index("lon"), fields.index("lat")
     INF = float("inf")
-    n = 0
+    n = 0; building = set()
     for path in sorted(pp for pp in crate.bodies if pp.startswith("sph_geom::coo3d::") or "sph_geom::coo3d::Coo3D" in pp):
         if "::tests::" in path or "{" in path: continue
         b = crate.body(path)
+        # does this function build one itself?
         e = Engine(crate); got = []
         def vh(v, loc, facts, _p=path, _g=got):
-            if v[0] == 'agg' and v[1] == 'adt:' + ADT and loc[0] == _p: _g.append((v, set(facts), loc))
+            if v[0] == 'agg' and v[1] == 'adt:' + ADT and loc[0] == _p: _g.append(loc)
         e.value_hook = vh
         e.run(path); ctx.functions |= e.visited_fns
-        seen = set()
-        for v, facts, loc in got:
-            if loc[2] in seen: continue
-            seen.add(loc[2])
+        if not got: continue
+        building.add(path)
+        leaves = explore_leaves(crate, path, max_tests=8)
+        key = "%s:lon-in-[0,2pi]" % path
+        if leaves is None:
+            ctx.undecided(clause, key, "cannot enumerate the ways through the tests of this constructor", at=b.span); continue
+        bad = None; nl = 0
+        for forced, el, rl_ in leaves:
+            if not rl_.returns: continue
+            v = rl_.ret
+            if not (v[0] == 'agg' and v[1] == 'adt:' + ADT):
+                bad = ("?", "the value returned on this way is not a Coo3D literal: %s" % show(v)[:60]); break
+            facts = {('b', t, bool(c[2])) for t, c in forced.items() if t[0] == 'op' and t[1] in CMP}
             env = {param(x): (-INF, INF) for x in b.param_names()}
-            rl = frange_facts(v[3][il], env, facts, eng=e)
-            rb = frange_facts(v[3][ib], env, facts, eng=e)
+            rl = frange_facts(v[3][il], env, facts, eng=el)
+            rb = frange_facts(v[3][ib], env, facts, eng=el)
             eps = 1e-12
-            ok = rl is not None and rb is not None and rl[0] >= 0.0 and rl[1] <= 2 * math.pi + eps and rb[0] >= -math.pi / 2 - eps and rb[1] <= math.pi / 2 + eps
-            n += 1
-            ctx.report(clause, "%s@%s:lon-in-[0,2pi]" % (path, n if False else loc[2].rsplit(":", 1)[0].rsplit("/", 1)[-1] + "#" + str(len(seen))), ok,
-                       "lon = %s in %s, lat = %s in %s" % (show(v[3][il])[:60], rl, show(v[3][ib])[:40], rb) if ok else
-                       "the longitude stored, %s, ranges over %s (latitude %s over %s) under the guards of this site: outside [0, 2pi] x [-pi/2, pi/2] — the polygon predicate compares these values as numbers of [0, 2pi)" % (show(v[3][il])[:80], rl, show(v[3][ib])[:40], rb),
-                       at=loc[2], kind="N")
-    ctx.floor("coo3d-construction-sites", n, 3)
+            nl += 1
+            if not (rl is not None and rb is not None and rl[0] >= 0.0 and rl[1] <= 2 * math.pi + eps and rb[0] >= -math.pi / 2 - eps and rb[1] <= math.pi / 2 + eps):
+                bad = (sorted((show(t)[:40], bool(c[2])) for t, c in forced.items() if t[0] == 'op'), "lon = %s ranges over %s, lat = %s over %s" % (show(v[3][il])[:60], rl, show(v[3][ib])[:40], rb)); break
+        n += 1
+        ctx.report(clause, key, bad is None and nl >= 1,
+                   "%d way(s) through the constructor: the stored longitude lies in [0, 2pi], the latitude in [-pi/2, pi/2]" % nl if bad is None else
+                   "with the tests %s: %s — outside [0, 2pi] x [-pi/2, pi/2]; the polygon predicate compares these values as numbers of [0, 2pi)" % bad,
+                   at=b.span, kind="N")
+    ctx.floor("coo3d-constructors", n, 2)
 
 
 def winding_step(ctx, crate):
@@ -465,3 +481,5 @@ def run(ctx):
     ctx.not_decided("tightness; the point-in-polygon predicate vs. the geometric definition; termination of the descent; that 4 vertices + centre inside implies the whole cell inside (convexity argument)")
     from rules import cancellation
     cancellation.check(ctx, ctx.crate("rel"), ['nested::polygon_coverage', 'nested::Layer::polygon_coverage', 'sph_geom::Polygon::contains'], floor=80)
+    from rules import controls as _controls
+    _controls.feval_controls(ctx)
